@@ -137,6 +137,17 @@ pub fn xen_fail_next() {
     XEN_FAIL_NEXT.with(|f| f.set(true));
 }
 
+/// is an injected failure still armed (no emulated ioctl ran since `xen_fail_next`)?
+#[cfg(all(feature = "xen", target_family = "unix"))]
+pub fn xen_fail_pending() -> bool {
+    XEN_FAIL_NEXT.with(|f| f.get())
+}
+/// disarm an injected failure that was not consumed
+#[cfg(all(feature = "xen", target_family = "unix"))]
+pub fn xen_fail_clear() {
+    XEN_FAIL_NEXT.with(|f| f.set(false));
+}
+
 /// stand-in for `vmm_sys_util::ioctl::ioctl_with_ref`
 ///
 /// # Safety
@@ -162,7 +173,8 @@ pub unsafe fn xen_ioctl_with_ref<F: std::os::unix::io::AsRawFd, T>(
         (b'G', 0) => {
             // ioctl_gntdev_map_grant_ref { count: u32, pad: u32, index: u64, refs: [{domid: u32, ref: u32}] }
             let count = std::ptr::read_unaligned(p as *const u32);
-            let first_ref = std::ptr::read_unaligned(p.add(20) as *const u32);
+            // (no reference follows the header when count == 0)
+            let first_ref = if count == 0 { 0 } else { std::ptr::read_unaligned(p.add(20) as *const u32) };
             let index = first_ref as u64 * page;
             std::ptr::write_volatile(p.add(8) as *mut u64, index);
             XEN_LOG.with(|l| l.borrow_mut().push(XenReq { map: true, index, count }));
